@@ -89,13 +89,13 @@ def expect_pit(ip, r2, p2):
 EXPECT = {"transformed": expect_transformed, "pit": expect_pit}
 
 
-def liesel_unit(shape, rel=IFACE, cls="LieselInterface", auto_update=True, uid=None, prop="C03", single_key=False):
+def liesel_unit(shape, rel=IFACE, cls="LieselInterface", auto_update=True, uid=None, prop="C03", single_key=False, prehistory=None):
     @unit(uid or (f"C03.{cls}.{shape}" + ("" if auto_update else ".auto_update_off")), prop, [f"{rel}::{cls}.__init__", f"{rel}::{cls}.update_state", f"{rel}::{cls}.extract_position", f"{rel}::{cls}.log_prob",
                                         f"{M}::Model._copy_computational_model", f"{M}::Model.state.fget", f"{M}::Model.state.fset", f"{M}::Model.update", f"{N}::Node.state.fset",
                                         f"{N}::Node.clear_state", f"{N}::Value.value.fset"],
           assumptions=[f"graph shape '{shape}', values / functions / distributions arbitrary", "A-PY: deepcopy duplicates the object graph preserving sharing",
                        "eager semantics only: equality with jit / vmap execution is bounded (A-JIT / A-VMAP are assumptions of this framework)"])
-    def u(ip, shape=shape, rel=rel, cls=cls, auto_update=auto_update, single_key=single_key):
+    def u(ip, shape=shape, rel=rel, cls=cls, auto_update=auto_update, single_key=single_key, prehistory=prehistory):
         """update_state(p, s) returns exactly the state the model itself reaches by assigning p directly and updating fully (every
         node's value, nothing outdated); the result does not depend on earlier calls (history independence); s and the user's model
         are not modified; extract_position gives p back (variable and node names); log_prob(state) is the model log-probability at
@@ -104,6 +104,17 @@ def liesel_unit(shape, rel=IFACE, cls="LieselInterface", auto_update=True, uid=N
         install_graph_models(ip)
         g = G(ip)
         model = g.build(*SHAPES_IFACE[shape](g))
+        if prehistory is not None:
+            # the model handed to the interface has a HISTORY: its variables were used in an earlier model (every strong value assigned there, then
+            # assigned back), taken out of it (pop_nodes_and_vars / copy_nodes_and_vars) and built into a new model
+            for nm in STRONG[shape]:
+                v0 = ip.getattr(model.f["_vars"][nm], "value")
+                ip.setattr(model.f["_vars"][nm], "value", z3.Const(f"earlier_{nm}", U))
+                ip.setattr(model.f["_vars"][nm], "value", v0)
+            nodes_, vars__ = ip.call(method(ip, model, "pop_nodes_and_vars" if prehistory == "pop" else "copy_nodes_and_vars"), [], {})
+            gb_ = ip.call(g.GB, [], {})
+            ip.call(method(ip, gb_, "add"), list(nodes_.values()) + list(vars__.values()), {})
+            model = ip.call(method(ip, gb_, "build_model"), [], {})
         if not auto_update:
             ip.setattr(model, "auto_update", False)
 
@@ -137,7 +148,7 @@ def liesel_unit(shape, rel=IFACE, cls="LieselInterface", auto_update=True, uid=N
             ip.setattr(ref.f["_nodes"][f"{names[1]}_value"], "value", p2[f"{names[1]}_value"])
         ip.call(method(ip, ref, "update"), [], {})
         ref_state = ip.getattr(ref, "state")
-        same_keys = list(r2) == list(ref_state)
+        same_keys = list(r2) == list(ref_state) if prehistory is None else sorted(r2) == sorted(ref_state)  # (a rebuilt model may list its nodes in another order)
         c.oblige("same_nodes", same_keys)
         if same_keys:
             for k in r2:
@@ -173,6 +184,8 @@ liesel_unit("transformed")  # default bijector depending on a model variable: fu
 liesel_unit("weakdist_deep")
 liesel_unit("weakdist_deep", uid="C03.LieselInterface.weakdist_deep.single_key", single_key=True)
 liesel_unit("direct", uid="C03.LieselInterface.direct.single_key", single_key=True)
+liesel_unit("hier", uid="C03.LieselInterface.hier.model_rebuilt_after_pop", prehistory="pop")
+liesel_unit("weakdist", uid="C03.LieselInterface.weakdist.model_rebuilt_from_copy", prehistory="copy")
 liesel_unit("weakdist")  # a weak variable that carries a distribution: the distribution must be refreshed AFTER the variable's value calculation
 liesel_unit("diamond", "liesel/model/goose.py", "GooseModel")
 liesel_unit("diamond", auto_update=False)
@@ -204,6 +217,52 @@ def u_ambiguous(ip):
         out2 = ip.call(method(ip, iface, "update_state"), [back, s], {})
         ref = ip.call(method(ip, iface, "update_state"), [{}, s], {})
         c.oblige(f"get_put_is_noop.{key}", all(ip.to_U(out2[k_].f["value"]).eq(ip.to_U(ref[k_].f["value"])) for k_ in ref if ref[k_].f["value"] is not None))
+
+
+@unit("C03.LieselInterface.two_models_in_one_process", "C03", [f"{IFACE}::LieselInterface.__init__", f"{IFACE}::LieselInterface.extract_position", f"{IFACE}::LieselInterface.update_state"],
+      assumptions=["two models: A with variable `x` on the default value node `x_value`; B where the variable `x` wraps an explicitly named calculation node `x_std` = h(raw), "
+                   "and where `aux` is a bare NODE (in A a variable `aux` on `aux_value`); both orders of first use"])
+def u_two_models(ip):
+    """an interface resolves a position key in ITS model only: what an interface of another model resolved before (same key, another node) changes nothing -
+    extract_position reads the node that holds the key's value in the state at hand, and put/get holds for each interface whatever ran before."""
+    c = ip.ctx
+    install_graph_models(ip)
+
+    def model_a():
+        g = G(ip)
+        x = g.var("x", value=z3.Const("A_x", U))
+        aux = g.var("aux", value=z3.Const("A_aux", U))
+        return g.build(g.calc("fA", x, aux, name="z"))
+
+    def model_b():
+        g = G(ip)
+        raw = g.var("raw", value=z3.Const("B_raw", U))
+        x = ip.call(g.Var, [g.calc("h", raw, name="x_std"), None], {"name": "x"})
+        aux = ip.call(g.Value, [z3.Const("B_aux", U)], {"_name": "aux"})
+        return g.build(g.calc("fB", x, aux, name="z"))
+
+    LI = ip.repo(f"{IFACE}::LieselInterface")
+    for order in ("A_first", "B_first"):
+        ma, mb = model_a(), model_b()
+        ia, ib = ip.call(LI, [ma], {}), ip.call(LI, [mb], {})
+        sa, sb = ip.getattr(ma, "state"), ip.getattr(mb, "state")
+        want = {"A": {"x": sa["x_value"].f["value"], "aux": sa["aux_value"].f["value"], "z": sa["z"].f["value"]},
+                "B": {"x": sb["x_std"].f["value"], "aux": sb["aux"].f["value"], "z": sb["z"].f["value"]}}
+        for which in (("A", "B") if order == "A_first" else ("B", "A")):
+            iface, st = (ia, sa) if which == "A" else (ib, sb)
+            kind, got = try_call(ip, method(ip, iface, "extract_position"), [["x", "aux", "z"], st], {})
+            c.oblige(f"{order}.{which}.extract_reads_this_models_nodes", kind == "ok" and list(got) == ["x", "aux", "z"] and all(ip.to_U(got[k]).eq(ip.to_U(want[which][k])) for k in got),
+                     raised=str(getattr(got, "cls", "")))
+        # put/get on B after A has been used (and the other way round)
+        for which, key in (("B", "raw"), ("B", "aux"), ("A", "x"), ("A", "aux")):
+            iface, st = (ia, sa) if which == "A" else (ib, sb)
+            v = z3.Const(f"put_{which}_{key}", U)
+            kind, out = try_call(ip, method(ip, iface, "update_state"), [{key: v}, st], {})
+            kind2, got = try_call(ip, method(ip, iface, "extract_position"), [[key, "x"], out], {}) if kind == "ok" else ("raise", out)
+            ok = kind == "ok" and kind2 == "ok" and ip.to_U(got[key]).eq(v)
+            if ok and which == "B" and key == "raw":  # the weak variable x of B is h(raw) at the NEW value
+                ok = ip.to_U(got["x"]).eq(ip.to_U(out["x_std"].f["value"])) and "put_B_raw" in str(ip.to_U(got["x"]))
+            c.oblige(f"{order}.{which}.put_get.{key}", bool(ok))
 
 
 # the caching protocol this property's statement rests on (values and densities "after updating")
